@@ -284,7 +284,7 @@ Lemma bh_Amono alpha madj n : 0 < madj ->
   forall i j p, (i <= j < n)%nat -> 0 <= p ->
   Aup (benjamini_adjust (mk_benjamini alpha madj)) (INR n) i p <= Aup (benjamini_adjust (mk_benjamini alpha madj)) (INR n) j p.
 Proof.
-  intros Hm i j p Hij Hp. unfold Aup, benjamini_adjust. cbn [fst bj_m_adj_]. cbv [nlit nmin]. apply Rmin_mono_l.
+  intros Hm i j p Hij Hp. unfold Aup. rewrite !bh_closed_form. cbn [fst]. apply Rmin_mono_l.
   apply Rmult_le_compat_l; [exact Hp|].
   assert (Hi : 0 < INR n - INR i) by (rewrite <- minus_INR by lia; apply lt_0_INR; lia).
   assert (Hj : 0 < INR n - INR j) by (rewrite <- minus_INR by lia; apply lt_0_INR; lia).
@@ -296,7 +296,7 @@ Lemma hochberg_bonferroni_Amono alpha n :
   forall i j p, (i <= j < n)%nat -> 0 <= p ->
   Aup (bonferroni_adjust (mk_bonferroni alpha (INR n))) (INR n) i p <= Aup (bonferroni_adjust (mk_bonferroni alpha (INR n))) (INR n) j p.
 Proof.
-  intros i j p Hij Hp. unfold Aup, bonferroni_adjust. cbn [fst bf_m]. cbv [nlit nmin]. apply Rmin_mono_l.
+  intros i j p Hij Hp. unfold Aup. rewrite !bonf_closed_form. cbn [fst]. apply Rmin_mono_l.
   apply Rmult_le_compat_l; [exact Hp|]. assert (INR i <= INR j) by (apply le_INR; lia). lra.
 Qed.
 
@@ -304,7 +304,7 @@ Lemma holm_bonferroni_Amono alpha n :
   forall i j p, (1 <= i <= j)%nat -> (j <= n)%nat -> 0 <= p ->
   Adn (bonferroni_adjust (mk_bonferroni alpha (INR n))) j p <= Adn (bonferroni_adjust (mk_bonferroni alpha (INR n))) i p.
 Proof.
-  intros i j p Hij Hj Hp. unfold Adn, bonferroni_adjust. cbn [fst bf_m]. cbv [nlit nmin]. apply Rmin_mono_l.
+  intros i j p Hij Hj Hp. unfold Adn. rewrite !bonf_closed_form. cbn [fst]. apply Rmin_mono_l.
   apply Rmult_le_compat_l; [exact Hp|]. assert (INR i <= INR j) by (apply le_INR; lia). lra.
 Qed.
 
